@@ -2591,6 +2591,59 @@ fn plain_and_shared_subscription_on_one_path_resume_without_resending_acknowledg
     report(name, "C08", "0/1/2 of the two copies acknowledged before the link fails", cases, fail);
 }
 
+/// C08: operator queries (console `PrintStatus` events, metrics / alerts ticks) while a persistent client is away do not
+/// change its saved session
+// @native props=C08,C03 tier=quick fn=Router::events(PrintStatus / SendMeters / SendAlerts)+print_status+Graveyard
+#[test]
+fn status_queries_do_not_touch_a_saved_session() {
+    let name = "rumqttd::Router::events#status_queries_leave_saved_sessions_alone";
+    use crate::router::Print;
+    let mut cases = 0u64;
+    let mut fail: Option<String> = None;
+    let queries: Vec<(&str, Box<dyn Fn() -> Event>)> = vec![
+        ("Print::Config", Box::new(|| Event::PrintStatus(Print::Config))),
+        ("Print::Router", Box::new(|| Event::PrintStatus(Print::Router))),
+        ("Print::ReadyQueue", Box::new(|| Event::PrintStatus(Print::ReadyQueue))),
+        ("Print::Connection(c)", Box::new(|| Event::PrintStatus(Print::Connection("c".to_owned())))),
+        ("Print::Connection(nobody)", Box::new(|| Event::PrintStatus(Print::Connection("nobody".to_owned())))),
+        ("Print::Subscriptions", Box::new(|| Event::PrintStatus(Print::Subscriptions))),
+        ("Print::Subscription(s/t)", Box::new(|| Event::PrintStatus(Print::Subscription("s/t".to_owned())))),
+        ("Print::Waiters(s/t)", Box::new(|| Event::PrintStatus(Print::Waiters("s/t".to_owned())))),
+        ("SendMeters", Box::new(|| Event::SendMeters)),
+        ("SendAlerts", Box::new(|| Event::SendAlerts)),
+    ];
+    'outer: for (qname, q) in queries.iter() {
+        for when in 0..2u8 {
+            cases += 1;
+            let desc = format!("persistent client c subscribed to s/t (QoS 1){}; its link fails; the operator issues {}; a message is published; c reconnects with clean-session off", if when == 1 { ", query also while it is connected" } else { "" }, qname);
+            let mut r = new_router();
+            let p = connect(&mut r, "p", true).unwrap();
+            let c = connect(&mut r, "c", false).unwrap();
+            send(&mut r, &c, vec![subscribe(1, &[("s/t", 1)])]);
+            let _ = drain(&mut r, &c);
+            if when == 1 {
+                r.events(0, q());
+                settle(&mut r);
+            }
+            r.events(c.id, Event::Disconnect);
+            settle(&mut r);
+            r.events(0, q());
+            settle(&mut r);
+            send(&mut r, &p, vec![publish("s/t", 0, 0, "while-away", false)]);
+            let c2 = connect(&mut r, "c", false).unwrap();
+            let first = drain(&mut r, &c2);
+            let present = first.iter().any(|n| matches!(n, RNotification::DeviceAck(Ack::ConnAck(_, a, _)) if a.session_present));
+            let mut got: Vec<String> = first.iter().filter_map(|n| match n { RNotification::Forward(Forward { publish, .. }) => Some(String::from_utf8_lossy(&publish.payload).to_string()), _ => None }).collect();
+            got.extend(receive_all(&mut r, &c2).into_iter().map(|g| g.1));
+            if !present || got != vec!["while-away".to_string()] {
+                fail = Some(format!("input=[{}] detail=[session present = {}, delivered after the resume: {:?}; expected the session and the message published while away]", desc, present, got));
+                break 'outer;
+            }
+        }
+    }
+    report(name, "C08,C03", "10 operator queries x issued while the client is away (and also while connected)", cases, fail);
+}
+
 /// C08: a saved session survives a refused reconnect (broker full) and exists for a client without subscriptions
 // @native props=C08,C19 tier=quick fn=Router::handle_new_connection+Graveyard::save_state
 #[test]
